@@ -162,7 +162,9 @@ func setupDo(s, ns *slip.Scope, args slip.List, depth int) (steps []*stepBind, t
 	if list, ok2 := args[1].(slip.List); !ok2 || len(list) == 0 {
 		slip.TypePanic(s, depth, "do test", args[1], "list")
 	} else {
-		if t1, ok3 := list[0].(slip.List); ok3 {
+		// The end-test-form can be any form, not only a list.
+		test = list[0]
+		if t1, ok3 := test.(slip.List); ok3 {
 			test = slip.ListToFunc(ns, t1, depth)
 		}
 		rforms = list[1:]
